@@ -278,8 +278,17 @@ func (e *Engine) replayModel(ob *Obligation, rf *replayFile) {
 		}
 	}
 	rf.Result = res
-	if strings.HasPrefix(res, "panic:") || strings.HasPrefix(res, "contract-violated") {
+	// what counts as the failure showing on the real code: the violated postcondition itself, or a panic when the
+	// failed obligation is a panic-freedom obligation and every precondition was checked on the input (an input
+	// built without regard to a precondition that has no runtime counterpart may panic for that reason alone)
+	safety := map[string]bool{"bounds": true, "nil": true, "div": true, "shift": true, "tassert": true, "unreach": true, "alloc": true, "pre": true}
+	switch {
+	case strings.HasPrefix(res, "contract-violated"):
 		rf.Confirmed = true
+	case strings.HasPrefix(res, "panic:") && safety[ob.Kind] && !modelOnly:
+		rf.Confirmed = true
+	case strings.HasPrefix(res, "panic:"):
+		rf.Note = "the replay panicked, but that does not demonstrate this obligation (kind " + ob.Kind + ", preconditions without runtime counterpart: " + fmt.Sprint(modelOnly) + "); not counted as a failing input"
 	}
 }
 
